@@ -341,4 +341,18 @@ theorem C02_history_then_delete (f : Nat) (ops : List (Env × Op)) (s : St) (env
 example : (SMap.run (fun k => k.id.length) ⟨4, fun _ => []⟩
     [.insert ⟨0, "a"⟩ ⟨.int 1, false, 0, false, 0⟩, .insert ⟨0, "a"⟩ ⟨.int 2, false, 0, false, 1⟩, .get ⟨1, "a"⟩]).length = 3 := by decide
 
+/-! Non-vacuity of the history theorems: a concrete source, a history with loads of three keys (same id under two
+types, another id), a `get_or_insert`, and deletions of the other keys only — the first entry is still at address 0. -/
+def exEnv (n : Int) : Env :=
+  { read := fun _ _ _ => .ok [], readDir := fun _ _ => .ok [],
+    types := fun _ => { hot := true, prog := fun _ => .ret (.int n) }, hasReloader := true }
+def exOps : List (Env × Op) :=
+  [(exEnv 1, .load ⟨0, "a"⟩), (exEnv 2, .load ⟨1, "a"⟩), (exEnv 3, .load ⟨0, "b"⟩), (exEnv 4, .getOrInsert ⟨0, "a"⟩ (.int 9)),
+   (exEnv 5, .remove ⟨1, "a"⟩), (exEnv 6, .take ⟨0, "b"⟩), (exEnv 7, .load ⟨0, "a"⟩)]
+example : (∀ eo ∈ exOps, deletes ⟨0, "a"⟩ eo.2 = false) ∧
+    ((runOps 5 {} (exOps.take 1)).lookup ⟨0, "a"⟩).map (fun c => (c.addr, c.val)) = some (0, .int 1) ∧
+    ((runOps 5 {} exOps).lookup ⟨0, "a"⟩).map (fun c => (c.addr, c.val)) = some (0, .int 1) ∧
+    (runOps 5 {} exOps).lookup ⟨1, "a"⟩ = none ∧ (runOps 5 {} exOps).lookup ⟨0, "b"⟩ = none := by
+  refine ⟨by decide, by decide, by decide, by decide, by decide⟩
+
 end AmVerif.Props.C02
